@@ -27,6 +27,9 @@ pub enum GenerateError {
 
     /// Object type has no known descriptor type mapping
     UnsupportedObjectType,
+
+    /// A function was declared but never given a body so there is nothing to export
+    FunctionNotDefined,
 }
 
 /// Generate HLSL ast from ir module
@@ -649,12 +652,15 @@ fn generate_function_inner(
     context: &mut GenerateContext,
 ) -> Result<ast::FunctionDefinition, GenerateError> {
     let sig = context.module.function_registry.get_function_signature(id);
-    let decl = context
+    let decl = match context
         .module
         .function_registry
         .get_function_implementation(id)
-        .as_ref()
-        .unwrap();
+    {
+        Some(decl) => decl,
+        // Parameter declarations live in the implementation so even a prototype needs it
+        None => return Err(GenerateError::FunctionNotDefined),
+    };
 
     let mut attributes = Vec::new();
     for attribute in &decl.attributes {
